@@ -17,14 +17,38 @@ def send_scenario(r, total, wrap_dest=None):
     events = []
     t = 0
     for k in range(total):
-        d = wrap_dest if (wrap_dest is not None and r.random() < 0.97) else r.choice(dests)
-        if wrap_dest == "none":
-            d = None if r.random() < 0.97 else r.choice(dests)
+        d = r.choice(dests)
         es = [] if r.random() < 0.1 else [e]
         if r.random() < 0.3:
             t += 1
         events.append((t, (1, [20, es, d])))
     return dict(cfg=cfg, insts=[], draws=[], events=events, end=t + 10, rev=False, fuel=200000)
+
+
+def wrap_scenario(r, wraps, main):
+    """Walks destination `main` across `wraps` wrap-arounds (counted in NON-EMPTY sends), other destinations and empty
+    sends interleaved; afterwards destinations [5], [6] are contacted for the first time."""
+    cfg = (0, 0, 0, 0, 0, 0, 0, 3, 3, 5, None, 0)
+    e = conv.s_entry(scen.SERVICES[0].create_find_entry(3))
+    others = [d for d in [None, [1], [2], [3], [4]] if d != main]
+    events = []
+    t = 0
+    sent_main = 0
+    target = 65535 * wraps + 40
+    while sent_main < target:
+        c = r.random()
+        d = main if c < 0.97 else r.choice(others)
+        es = [] if r.random() < 0.03 else [e]
+        if d == main and es:
+            sent_main += 1
+        if r.random() < 0.3:
+            t += 1
+        events.append((t, (1, [20, es, d])))
+    for k in range(60):
+        d = r.choice([[5], [6], main, None])
+        t += 1
+        events.append((t, (1, [20, [] if r.random() < 0.1 else [e], d])))
+    return dict(cfg=cfg, insts=[], draws=[], events=events, end=t + 10, rev=False, fuel=400000)
 
 
 def notify_ids(n_per_dest, dests=2):
@@ -77,14 +101,14 @@ def run(ctx):
     r = ctx.rng
     quick = ctx.tier == "quick"
     ctx.rule = ("interleavings of send_sd to the multicast group and 4 unicast peers with ~10% empty sends, including one run that walks one destination across the "
-                "0xFFFF wrap-around (quick: one wrap = 65535+ sends; thorough: the complete 2 x 65535 cycle, multicast and unicast) by issuing the sends, decoding every "
+                "0xFFFF wrap-around and then contacts new destinations for the first time (quick: one wrap = 65535+ sends; thorough: the complete 2 x 65535 cycle, multicast and unicast) by issuing the sends, decoding every "
                 "transmitted datagram; the same for SimpleEventgroup._notify_single with two subscribers across a wrap; assign_outgoing compared with the model over long "
                 "destination sequences; implementation trace judged by check_C08; non-trivial = distinct scenario")
     ctx.assumptions = ["calls from the loop thread only (the outgoing_lock is not modelled)", "entry lists are encodable (an encoding failure after the id was taken consumes the id: observation O1)"]
     scs = [send_scenario(r, r.randint(1, 60)) for _ in range(60 if quick else 2000)]
-    scs.append(send_scenario(r, 66500 if quick else 132000, wrap_dest=[1]))
+    scs.append(wrap_scenario(r, 1 if quick else 2, [1]))
     if not quick:
-        scs.append(send_scenario(r, 132000, wrap_dest="none"))
+        scs.append(wrap_scenario(r, 2, None))
     stackprop.run_scenarios(ctx, scs, 3008, CODES, what="session ids")
     # assign_outgoing directly (long sequences, cheap)
     cases, impl = [], []
@@ -92,6 +116,7 @@ def run(ctx):
         st = S._SessionStorage()
         n = r.choice([10, 1000, 70000]) if k < 3 else r.randint(1, 3000)
         ds = [r.choice([None, 1, 2, 3]) if r.random() < 0.2 else 1 for _ in range(n)]
+        ds = [7 if (i > 66000 and i % 50 == 0) else d for i, d in enumerate(ds)]  # first contact after another destination's wrap
         out = [st.assign_outgoing(None if d is None else sim.addr_of(d)) for d in ds]
         cases.append((801, [None if d is None else [d] for d in ds]))
         impl.append([[bool(f), i] for f, i in out])
